@@ -75,7 +75,20 @@ pub fn convert(map: &mut Beatmap, mods: &GameMods) {
                     map,
                 );
 
+                #[cfg(rosu_pp_verif)]
+                let verif_inputs = gen.verif_inputs();
+
                 let new_pattern = gen.generate();
+
+                #[cfg(rosu_pp_verif)]
+                crate::verif::trace::emit(|| {
+                    format!(
+                        r#"{{"g":"circle",{verif_inputs},"stair":"{}","stair_after":"{}","out":{}}}"#,
+                        last_values.stair,
+                        gen.stair_type,
+                        new_pattern.verif_notes(total_columns),
+                    )
+                });
 
                 last_values.stair = gen.stair_type;
                 last_values.time = obj.start_time;
@@ -110,10 +123,27 @@ pub fn convert(map: &mut Beatmap, mods: &GameMods) {
                     compute_density(time, &mut density);
                 }
 
+                #[cfg(rosu_pp_verif)]
+                let verif_inputs = gen.verif_inputs();
+
+                #[cfg(rosu_pp_verif)]
+                let mut verif_parts = Vec::new();
+
                 for new_pattern in gen.generate() {
+                    #[cfg(rosu_pp_verif)]
+                    verif_parts.push(new_pattern.verif_notes(total_columns));
+
                     new_hit_objects.extend_from_slice(&new_pattern.hit_objects);
                     last_values.pattern = new_pattern;
                 }
+
+                #[cfg(rosu_pp_verif)]
+                crate::verif::trace::emit(|| {
+                    format!(
+                        r#"{{"g":"slider",{verif_inputs},"parts":[{}]}}"#,
+                        verif_parts.join(",")
+                    )
+                });
             }
             HitObjectKind::Spinner(Spinner { duration })
             | HitObjectKind::Hold(HoldNote { duration }) => {
@@ -134,7 +164,19 @@ pub fn convert(map: &mut Beatmap, mods: &GameMods) {
 
                 compute_density(end_time, &mut density);
 
+                #[cfg(rosu_pp_verif)]
+                let verif_inputs = gen.verif_inputs();
+
                 let new_pattern = gen.generate();
+
+                #[cfg(rosu_pp_verif)]
+                crate::verif::trace::emit(|| {
+                    format!(
+                        r#"{{"g":"spinner",{verif_inputs},"out":{}}}"#,
+                        new_pattern.verif_notes(total_columns),
+                    )
+                });
+
                 new_hit_objects.extend(new_pattern.hit_objects);
             }
         }
